@@ -55,17 +55,12 @@ def run_harnesses(repo, verif, names):
             h = HARNESSES[n]
             cmd = ['cargo', 'kani', '-Z', 'function-contracts', '--exact', '--harness', h['path']]
             t0 = time.time()
-            try:
-                p = subprocess.run(cmd, cwd=scratch, env=env, capture_output=True, text=True, timeout=TIMEOUT_S)
-                out = p.stdout + '\n' + p.stderr
-                timed_out = False
-            except subprocess.TimeoutExpired as e:
-                out = (e.stdout or b'').decode('utf8', 'replace') if isinstance(e.stdout, bytes) else (e.stdout or '')
-                timed_out = True
-                subprocess.run('pgrep -x cbmc | xargs -r kill', shell=True)
+            out, timed_out, oom = run_guarded(cmd, scratch, env, TIMEOUT_S)
             dt = time.time() - t0
             rec = dict(name=n, harness=h['fn'], bounded=h['bounded'], bound=h['bound'], seconds=round(dt, 1), cmd=' '.join(cmd))
-            if timed_out:
+            if oom:
+                rec['status'] = 'MEMORY-GUARD'
+            elif timed_out:
                 rec['status'] = 'TIMEOUT'
             elif 'VERIFICATION:- SUCCESSFUL' in out and 'VERIFICATION:- FAILED' not in out:
                 rec['status'] = 'SUCCESS'
@@ -92,6 +87,45 @@ def run_harnesses(repo, verif, names):
     finally:
         shutil.rmtree(scratch, ignore_errors=True)
     return results
+
+
+def cbmc_rss_kb():
+    tot = 0
+    try:
+        pids = subprocess.run(['pgrep', '-x', 'cbmc'], capture_output=True, text=True).stdout.split()
+        for pid in pids:
+            for line in open('/proc/%s/status' % pid):
+                if line.startswith('VmRSS:'):
+                    tot = max(tot, int(line.split()[1]))
+    except Exception:
+        pass
+    return tot
+
+
+def run_guarded(cmd, cwd, env, timeout):
+    """run cargo kani with a wall-clock limit and an RSS watchdog on cbmc (no swap on this machine)"""
+    import tempfile as _tf
+    outf = _tf.TemporaryFile(mode='w+')
+    p = subprocess.Popen(cmd, cwd=cwd, env=env, stdout=outf, stderr=subprocess.STDOUT, text=True)
+    t0 = time.time()
+    timed_out = oom = False
+    while p.poll() is None:
+        time.sleep(2)
+        if time.time() - t0 > timeout:
+            timed_out = True
+        elif cbmc_rss_kb() > RSS_LIMIT_KB:
+            oom = True
+        if timed_out or oom:
+            subprocess.run('pgrep -x cbmc | xargs -r kill; pgrep -x kani-driver | xargs -r kill', shell=True)
+            try:
+                p.wait(timeout=20)
+            except subprocess.TimeoutExpired:
+                p.kill()
+            break
+    outf.seek(0)
+    out = outf.read()
+    outf.close()
+    return out, timed_out, oom
 
 
 def concrete_playback(scratch, env, fn):
